@@ -1086,6 +1086,18 @@ impl World {
             marginfi::instruction::LendingPoolCloseBank {}.data(),
         )
     }
+    pub fn ix_force_tokenless_complete(&self, bi: usize, signer: Pubkey) -> Instruction {
+        mfi_ix(
+            marginfi::accounts::LendingPoolForceTokenlessRepayComplete { group: self.group, risk_admin: signer, bank: self.banks[bi].key }.to_account_metas(Some(true)),
+            marginfi::instruction::LendingPoolForceTokenlessRepayComplete {}.data(),
+        )
+    }
+    pub fn ix_purge(&self, macct: Pubkey, bi: usize, signer: Pubkey) -> Instruction {
+        mfi_ix(
+            marginfi::accounts::LendingAccountPurgeDelevBalance { group: self.group, marginfi_account: macct, risk_admin: signer, bank: self.banks[bi].key }.to_account_metas(Some(true)),
+            marginfi::instruction::PurgeDeleverageBalance {}.data(),
+        )
+    }
     pub fn ix_pulse_health(&self, macct: Pubkey) -> Instruction {
         let mut m = marginfi::accounts::PulseHealth { marginfi_account: macct }.to_account_metas(Some(true));
         m.extend(self.risk_metas(&macct, None, None));
